@@ -1706,6 +1706,10 @@ def _convert_if_zero(value: Any, atol: float = 1e-12):
     elif sparse.issparse(value):
         if value.count_nonzero() == 0:
             return zero
+        if isinstance(value, sparse.spmatrix):
+            # Use sparse arrays: `*` of a sparse matrix is a matrix product and its
+            # sum with an array is an np.matrix, which breaks elementwise operations.
+            return sparse.csr_array(value)
     elif isinstance(value, sympy.MatrixBase):
         if value.is_zero_matrix:
             return zero
